@@ -211,8 +211,8 @@ class Trace:
                             if em[2] not in reused and pushes[key] - acked.get(key, 0) > rwnd[1 - e]:
                                 self.fail('C03', "label %d: endpoint %d has %d unacknowledged Push frames on flow %d, the peer's window is %d"
                                           % (k, e, pushes[key] - acked.get(key, 0), em[2], rwnd[1 - e]))
-                        elif em[1] == 1 and op == 15:
-                            # Acknowledge frames sent while reading return credit for consumed frames
+                        elif em[1] == 1 and op in (15, 31):
+                            # Acknowledge frames sent while reading (by the application or by a bridge's poll) return credit for consumed frames
                             key = (em[2], 1 - e)
                             n = (em[3][0] << 24 | em[3][1] << 16 | em[3][2] << 8 | em[3][3]) if len(em[3]) >= 4 else 0
                             acked[key] = acked.get(key, 0) + n
@@ -431,7 +431,7 @@ class MuxSpec(pure.Spec):
         k, l, sec, a, b = d
         name = NAMES.get(l[0], str(l[0]))
         text = ("first difference at label %d (%s %s), section %s: implementation %s, model %s"
-                % (k, name, l[1:8], sec, a, b))
+                % (k, name, l[1:8], sec, str(a)[:400], str(b)[:400]))
         if sec == "wakes" and a is not None and b is not None and set(b[1]) <= set(a[1]):
             return False, "extra-wake-%s" % name, text
         fails = l[0] in LABEL_SETS.get(self.prop, set())
